@@ -21,6 +21,7 @@ EXTENDS RefDefs
 CONSTANTS Names,        \* section names that may be opened (not empty, not starting with '[')
           Texts,        \* texts that may be put into a section
           CommentTexts, \* what may follow the ';' of a comment
+          ContTexts,    \* texts that may be written with a backslash at the end
           DefLines, CliLines,   \* default layer / -I layer of the configuration chain looked at by ChainIsConcat
           MaxLines, MaxFiles
 
@@ -80,7 +81,8 @@ EndOfFile ==
 
 Next ==
   \/ \E name \in Names : SectionHeader(name)
-  \/ \E text \in Texts : Line(text) \/ Continuation(text)
+  \/ \E text \in Texts : Line(text)
+  \/ \E text \in ContTexts : Continuation(text)
   \/ \E text \in CommentTexts : Comment(text)
   \/ Blank
   \/ EndOfFile
